@@ -20,7 +20,8 @@ Ltac impl_elim H tac :=
 
 (* ---------- C03 ---------- *)
 Definition c03_safe (g : gs) : Prop :=
-  reply_wf g = true /\ (g_clean g <= 1)%nat /\ (g_log g <= 1)%nat /\ (g_destroy g <= 1)%nat /\ g_panic g = false.
+  reply_wf g = true /\ (g_clean g <= 1)%nat /\ (g_log g <= 1)%nat /\ (g_destroy g <= 1)%nat /\ g_panic g = false /\
+  g_mixed g = false.
 
 Lemma c03_safe_family : forall c, In c family -> forall sched, Forall allowed sched -> c03_safe (summ src_tree c sched).
 Proof.
@@ -30,6 +31,7 @@ Proof.
   - now apply Nat.leb_le.
   - now apply Nat.leb_le.
   - now apply Nat.leb_le.
+  - now apply negb_true_iff.
   - now apply negb_true_iff.
 Qed.
 
@@ -251,7 +253,7 @@ Proof. vm_compute. repeat split; reflexivity. Qed.
 Lemma c14_example_holds :
   let c := mk false false false RouteForward 2 true 0 [] false 0
               [{| f_phase := 1; f_code := 403; f_verdicts := [VHijackCont] |}; {| f_phase := 1; f_code := 429; f_verdicts := [VReMatch] |}]
-              [{| sf_verdicts := [] |}] [] in
+              [{| sf_code := 400; sf_verdicts := [] |}] [] in
   In c family /\ Forall allowed drive /\ g_denied (summ src_tree c drive) = true /\
   g_reply_kind (summ src_tree c drive) = Some (KHijack, 403) /\ scalls (final src_tree c drive) = [1%nat].
 Proof.
